@@ -57,6 +57,8 @@ STRUCTURES = [("composeinfo-chain", "doc:ComposeInfo.loads"), ("composeinfo-chai
               ("composeinfo-wide", "doc:ComposeInfo.loads"), ("composeinfo-wide-dup", "doc:ComposeInfo.loads"),
               ("treeinfo-chain", "doc:TreeInfo.loads"), ("treeinfo-chain-dup", "doc:TreeInfo.loads"),
               ("images-same-image-repeated", "doc:Images.loads"),
+              ("ini-reference-stage2-fanout", "doc:TreeInfo.loads"), ("ini-reference-stage2-depth", "doc:TreeInfo.loads"),
+              ("ini-reference-checksums-fanout", "doc:TreeInfo.loads"),
               ("legacy-treeinfo-sections-shared-by-id", "doc:TreeInfo.loads"), ("legacy-treeinfo-addons-shared-by-id", "doc:TreeInfo.loads")]
 SENTINELS = [("is_valid_release_short", "", "a", "!"), ("is_valid_release_short", "", "a-", "!"), ("is_valid_release_version", "", "1", "x"),
              ("is_valid_release_version", "", "1.", "x"), ("is_valid_release_type", "", "a", "!"), ("is_valid_release_type", "a", "1", "_"),
